@@ -426,3 +426,662 @@ pose proof (kill_frame R query quals nv start cig j v w Hn Hw Hkill cig [] (skip
 cbn [expand flat_map ref_units query_units fold_right] in Hg. rewrite Nat.add_0_r in Hg.
 destruct (Hg Hin eq_refl) as [Hne Hlt]. cbn [fst snd] in Hne, Hlt. unfold w in Hne. lia.
 Qed.
+
+(* ================================================================================================
+   the remaining case: the read shows the insertion => REF is not reported *)
+
+(* --- the ids kept by detect_non_overlapping_variants have pairwise distinct positions *)
+Lemma non_overlapping_fresh_pos (nv : list variant) : forall (vs : list ivar) seen skip,
+  (forall j v, In (j, v) vs -> nth_error nv j = Some v) ->
+  forall j, In j (non_overlapping vs seen skip) -> ~ In (vpos (nth j nv dummy)) seen.
+Proof.
+induction vs as [|[j v] rest IH]; intros seen skip Hnth j0 Hin; [contradiction|].
+assert (Hnth' : forall j v, In (j, v) rest -> nth_error nv j = Some v) by (intros; apply Hnth; now right).
+assert (Hv : nth j nv dummy = v) by (apply nth_error_nth, Hnth; now left).
+cbn [non_overlapping] in Hin.
+destruct (match skip with Some d => vpos v <? d | None => false end); [now apply (IH seen skip)|].
+destruct (existsb (Nat.eqb (vpos v)) seen) eqn:Ex; [now apply (IH seen None)|].
+assert (Hnotin : ~ In (vpos v) seen).
+{ intros H. assert (existsb (Nat.eqb (vpos v)) seen = true); [|congruence].
+  apply existsb_exists. exists (vpos v). split; [exact H|apply Nat.eqb_refl]. }
+assert (Hrec : forall sk, In j0 (non_overlapping rest (vpos v :: seen) sk) -> ~ In (vpos (nth j0 nv dummy)) seen).
+{ intros sk H0 H1. apply (IH (vpos v :: seen) sk Hnth' j0 H0). now right. }
+assert (Hhead : j0 = j -> ~ In (vpos (nth j0 nv dummy)) seen) by (intros ->; now rewrite Hv).
+destruct (length (valt v) <? length (vref v)).
+- destruct rest as [|[j1 v1] rest1] eqn:Er.
+  + destruct Hin as [<-|[]]. now apply Hhead.
+  + destruct (vpos v1 <? vpos v + length (vref v)); [now apply (Hrec (Some (vpos v + length (vref v))))|].
+    destruct Hin as [<-|Hin]; [now apply Hhead|now apply (Hrec None)].
+- destruct Hin as [<-|Hin]; [now apply Hhead|now apply (Hrec None)].
+Qed.
+
+Fixpoint strict_ids (nv : list variant) (l : list nat) : Prop :=
+  match l with
+  | [] => True
+  | j :: r => Forall (fun j' => vpos (nth j nv dummy) < vpos (nth j' nv dummy)) r /\ strict_ids nv r
+  end.
+
+Lemma non_overlapping_strict (nv : list variant) : forall (vs : list ivar) seen skip,
+  (forall j v, In (j, v) vs -> nth_error nv j = Some v) -> sorted_pos vs ->
+  strict_ids nv (non_overlapping vs seen skip).
+Proof.
+induction vs as [|[j v] rest IH]; intros seen skip Hnth Hs; [exact I|].
+assert (Hnth' : forall j v, In (j, v) rest -> nth_error nv j = Some v) by (intros; apply Hnth; now right).
+assert (Hv : nth j nv dummy = v) by (apply nth_error_nth, Hnth; now left).
+destruct Hs as [Hall Hs].
+assert (Hkeep : forall sk, strict_ids nv (j :: non_overlapping rest (vpos v :: seen) sk)).
+{ intros sk. cbn [strict_ids]. split; [|now apply IH]. rewrite Forall_forall. intros j' Hj'.
+  destruct (non_overlapping_props nv rest (vpos v :: seen) sk Hnth' Hs) as [Hval _].
+  destruct (Hval j' Hj') as (v' & Hv'). rewrite Forall_forall in Hall. specialize (Hall _ Hv'). cbn [snd] in Hall.
+  pose proof (non_overlapping_fresh_pos nv rest (vpos v :: seen) sk Hnth' j' Hj') as Hf.
+  rewrite Hv. rewrite (nth_error_nth nv j' dummy (Hnth' j' v' Hv')) in *.
+  assert (vpos v' <> vpos v) by (intros E; apply Hf; left; now symmetry). lia. }
+cbn [non_overlapping].
+destruct (match skip with Some d => vpos v <? d | None => false end); [now apply IH|].
+destruct (existsb (Nat.eqb (vpos v)) seen); [now apply IH|].
+destruct (length (valt v) <? length (vref v)); [|apply Hkeep].
+destruct rest as [|[j1 v1] rest1] eqn:Er.
+- cbn. split; [constructor|exact I].
+- destruct (vpos v1 <? vpos v + length (vref v)); [now apply IH|apply Hkeep].
+Qed.
+
+Fixpoint strict_vp (nv : list variant) (vp : list vprog) : Prop :=
+  match vp with
+  | [] => True
+  | e :: r => Forall (fun e' => vpos (vvar nv e) < vpos (vvar nv e')) r /\ strict_vp nv r
+  end.
+
+Lemma strict_vp_map nv l : strict_ids nv l ->
+  strict_vp nv (map (fun j => build_var_progress (nth j nv dummy) j) l).
+Proof.
+induction l as [|j r IH]; [auto|]. cbn [strict_ids map strict_vp]. intros [Hall Hs]. split; [|auto].
+rewrite Forall_map. exact Hall.
+Qed.
+
+Lemma strict_vp_app nv a b : strict_vp nv (a ++ b) -> strict_vp nv b.
+Proof. induction a as [|x a IH]; [auto|]. cbn [app strict_vp]. intros [_ H]. auto. Qed.
+
+Lemma strict_vp_weak nv vp : strict_vp nv vp -> sorted_vp nv vp.
+Proof.
+induction vp as [|e r IH]; [auto|]. intros [Hall Hs]. split; [|auto].
+eapply Forall_impl; [|exact Hall]. cbn. intros; lia.
+Qed.
+
+Lemma initial_vp_strict (nv : list variant) :
+  sorted_pos (index_from 0 nv) ->
+  strict_vp nv (map (fun j => build_var_progress (nth j nv (mkVar 0 [] [])) j) (non_overlapping (index_from 0 nv) [] None)).
+Proof.
+intros Hs. apply strict_vp_map, non_overlapping_strict; [|exact Hs].
+intros j0 v0 H0. destruct (index_from_spec nv 0 j0 v0 H0) as [_ H1]. now rewrite Nat.sub_0_r in H1.
+Qed.
+
+Section InsertionShown.
+Variable R : rules.
+Hypothesis Hspan : r_ins_span R = true.
+Variables (query quals : list Z) (nv : list variant) (start : nat) (whole : cigar).
+Variables (j : nat) (v : variant).
+Hypothesis Hnth : nth_error nv j = Some v.
+Hypothesis Hvref : vref v = [].
+Variables (P Q : list cop) (m1 m2 : cop) (q1 q2 : list Z).
+Let n := length (valt v).
+Let PM := P ++ [m1].
+Let K := length PM.
+Hypothesis Hn : 0 < n.
+Hypothesis Hpos : positive_lengths whole.
+Hypothesis Hunits : expand whole = PM ++ repeat OpI n ++ m2 :: Q.
+Hypothesis Hm1 : is_match m1 = true.
+Hypothesis Hm2 : is_match m2 = true.
+Hypothesis Hp : vpos v = start + ref_units PM.
+Hypothesis Hquery : query = q1 ++ valt v ++ q2.
+Hypothesis Hq1 : length q1 = query_units PM.
+
+(* --- facts about the unit operations of an operation of the CIGAR *)
+Lemma units_of_op pre op len rest : whole = pre ++ (op, len) :: rest ->
+  expand whole = expand pre ++ repeat op len ++ expand rest.
+Proof. intros ->. rewrite expand_app. reflexivity. Qed.
+
+Lemma unit_in_op pre op len rest i : whole = pre ++ (op, len) :: rest -> i < len ->
+  nth_error (expand whole) (length (expand pre) + i) = Some op.
+Proof.
+intros Hw Hi. rewrite (units_of_op _ _ _ _ Hw). rewrite nth_error_app2 by lia.
+replace (length (expand pre) + i - length (expand pre)) with i by lia.
+rewrite nth_error_app1 by (rewrite repeat_length; lia). apply nth_error_repeat. exact Hi.
+Qed.
+
+Lemma unit_in_run x : K <= x -> x < K + n -> nth_error (expand whole) x = Some OpI.
+Proof.
+intros H1 H2. rewrite Hunits. rewrite nth_error_app2 by (fold K; lia). fold K.
+rewrite nth_error_app1 by (rewrite repeat_length; lia). apply nth_error_repeat. lia.
+Qed.
+
+Lemma unit_after_run : nth_error (expand whole) (K + n) = Some m2.
+Proof.
+rewrite Hunits. rewrite nth_error_app2 by (fold K; lia). fold K.
+rewrite nth_error_app2 by (rewrite repeat_length; lia). rewrite repeat_length.
+replace (K + n - K - n) with 0 by lia. reflexivity.
+Qed.
+
+Lemma unit_before_run : nth_error (expand whole) (K - 1) = Some m1.
+Proof.
+rewrite Hunits. unfold K, PM. rewrite app_length. cbn [length].
+rewrite nth_error_app1 by (rewrite app_length; cbn; lia).
+rewrite nth_error_app2 by lia. replace (length P + 1 - 1 - length P) with 0 by lia. reflexivity.
+Qed.
+
+Lemma K_pos : 0 < K.
+Proof. unfold K, PM. rewrite app_length. cbn. lia. Qed.
+
+(* F1 *)
+Lemma op_in_run pre op len rest : whole = pre ++ (op, len) :: rest ->
+  K <= length (expand pre) -> length (expand pre) < K + n -> op = OpI.
+Proof.
+intros Hw H1 H2. pose proof (positive_in whole pre op len rest Hpos Hw) as Hlen.
+pose proof (unit_in_op pre op len rest 0 Hw Hlen) as Hu. rewrite Nat.add_0_r in Hu.
+rewrite (unit_in_run _ H1 H2) in Hu. now injection Hu.
+Qed.
+
+(* F2 *)
+Lemma op_over_K pre op len rest : whole = pre ++ (op, len) :: rest ->
+  length (expand pre) <= K -> K < length (expand pre) + len -> op = OpI /\ length (expand pre) = K.
+Proof.
+intros Hw H1 H2. pose proof K_pos as HK.
+assert (Hop : op = OpI).
+{ pose proof (unit_in_op pre op len rest (K - length (expand pre)) Hw) as Hu.
+  replace (length (expand pre) + (K - length (expand pre))) with K in Hu by lia.
+  rewrite (unit_in_run K) in Hu by lia. specialize (Hu ltac:(lia)). now injection Hu. }
+split; [exact Hop|].
+destruct (Nat.eq_dec (length (expand pre)) K) as [E|E]; [exact E|exfalso].
+pose proof (unit_in_op pre op len rest (K - 1 - length (expand pre)) Hw) as Hu.
+replace (length (expand pre) + (K - 1 - length (expand pre))) with (K - 1) in Hu by lia.
+rewrite unit_before_run in Hu. specialize (Hu ltac:(lia)). injection Hu as Hu. rewrite Hu, Hop in Hm1. discriminate.
+Qed.
+
+(* F3 *)
+Lemma ins_op_within_run pre len rest : whole = pre ++ (OpI, len) :: rest ->
+  length (expand pre) < K + n -> length (expand pre) + len <= K + n.
+Proof.
+intros Hw H1. destruct (Nat.le_gt_cases (length (expand pre) + len) (K + n)) as [H|H]; [exact H|exfalso].
+pose proof (unit_in_op pre OpI len rest (K + n - length (expand pre)) Hw) as Hu.
+replace (length (expand pre) + (K + n - length (expand pre))) with (K + n) in Hu by lia.
+rewrite unit_after_run in Hu. specialize (Hu ltac:(lia)). injection Hu as Hu. rewrite Hu in Hm2. discriminate.
+Qed.
+
+(* prefixes of the unit list and their reference lengths *)
+Lemma prefix_of_PM pre op len rest c : whole = pre ++ (op, len) :: rest -> c <= len ->
+  length (expand pre) + c <= K -> exists l, PM = (expand pre ++ repeat op c) ++ l.
+Proof.
+intros Hw Hc HK. pose proof (units_of_op _ _ _ _ Hw) as Hu. rewrite Hunits in Hu.
+assert (Hsplit : repeat op len = repeat op c ++ repeat op (len - c)).
+{ rewrite <- repeat_app. f_equal. lia. }
+rewrite Hsplit, <- app_assoc, (app_assoc (expand pre)) in Hu.
+apply app_eq_app in Hu as [l [[H1 H2]|[H1 H2]]].
+- exists l. exact H1.
+- assert (Hl : length (expand pre ++ repeat op c) = length PM + length l) by (rewrite H1, app_length; reflexivity).
+  rewrite app_length, repeat_length in Hl. fold K in Hl. assert (l = []) by (destruct l; [reflexivity|cbn in Hl; lia]).
+  subst l. rewrite app_nil_r in H1. exists []. now rewrite app_nil_r.
+Qed.
+
+Lemma ru_before_K pre op len rest : whole = pre ++ (op, len) :: rest ->
+  length (expand pre) < K -> ref_units (expand pre) < ref_units PM.
+Proof.
+intros Hw HK. destruct (prefix_of_PM pre op len rest 0 Hw ltac:(lia) ltac:(lia)) as [l Hl].
+cbn [repeat] in Hl. rewrite app_nil_r in Hl.
+assert (Hne : l <> []).
+{ intros ->. rewrite app_nil_r in Hl. assert (E : K = length (expand pre)) by (unfold K; now rewrite Hl). lia. }
+pose proof (last_unit_ref P m1 (is_match_ref_unit _ Hm1) l Hne (ex_intro _ (expand pre) Hl)) as Hpos'.
+rewrite Hl, ref_units_app. lia.
+Qed.
+
+Lemma ru_at_K pre : length (expand pre) = K -> (exists op len rest, whole = pre ++ (op, len) :: rest) ->
+  expand pre = PM.
+Proof.
+intros HK (op & len & rest & Hw). destruct (prefix_of_PM pre op len rest 0 Hw ltac:(lia) ltac:(lia)) as [l Hl].
+cbn [repeat] in Hl. rewrite app_nil_r in Hl.
+assert (length PM = length (expand pre) + length l) by (rewrite Hl, app_length; reflexivity).
+fold K in H. assert (l = []) by (destruct l; [reflexivity|cbn in H; lia]). subst l. now rewrite app_nil_r in Hl.
+Qed.
+
+
+(* --- allele trackers of the insertion *)
+Definition z0 : aprog := new_allele 0 0 0.
+Definition alt_ok (k : nat) (a : aprog) : Prop :=
+  progress a = Z.of_nat k /\ alen a = n /\ matched a = 0 /\ match_target a = 0 /\ inserted a = k /\
+  insert_target a = n /\ deleted a = 0 /\ delete_target a = 0.
+
+Notation step := (step_allele query quals v).
+
+Lemma z0_step op qp len qs i : step op qp len qs i z0 = z0.
+Proof.
+unfold step_allele, match_allele, ins_allele, del_allele, z0, new_allele. cbn [progress Z.ltb Z.compare].
+destruct op; try reflexivity.
+- destruct len; cbn [match_loop matched match_target Nat.ltb Nat.leb andb progress alen]; cbn; now rewrite ?andb_false_r.
+- destruct len; cbn [ins_loop inserted insert_target Nat.ltb Nat.leb andb progress alen]; cbn; now rewrite ?andb_false_r.
+- destruct len; cbn [del_loop deleted delete_target Nat.ltb Nat.leb andb progress alen]; cbn; now rewrite ?andb_false_r.
+- destruct len; cbn [match_loop matched match_target Nat.ltb Nat.leb andb progress alen]; cbn; now rewrite ?andb_false_r.
+- destruct len; cbn [match_loop matched match_target Nat.ltb Nat.leb andb progress alen]; cbn; now rewrite ?andb_false_r.
+Qed.
+
+Lemma alt_done_step op qp len qs i a : alt_ok n a -> step op qp len qs i a = a.
+Proof.
+intros (Hpr & Hl & Hma & Hmt & Hi & Hit & Hd & Hdt).
+assert (Hnn : Z.ltb (progress a) 0 = false) by (rewrite Hpr; apply Z.ltb_ge; lia).
+assert (Hfull : Z.ltb (progress a) (Z.of_nat (alen a)) = false) by (rewrite Hpr, Hl; apply Z.ltb_irrefl).
+unfold step_allele, match_allele, ins_allele, del_allele. rewrite Hnn.
+destruct op; try reflexivity.
+- assert (Hloop : match_loop len query quals (get_allele v i) (qs + matched a + inserted a) a (qs - qp) len = (a, qs - qp)).
+  { destruct len; cbn [match_loop]; [reflexivity|]. rewrite Hma, Hmt. reflexivity. }
+  rewrite Hloop, Hfull. now rewrite andb_false_r.
+- assert (Hloop : ins_loop len query (get_allele v i) qs a 0 len = (a, 0)).
+  { destruct len; cbn [ins_loop]; [reflexivity|]. rewrite Hi, Hit, Nat.ltb_irrefl. reflexivity. }
+  rewrite Hloop, Hfull. now rewrite !andb_false_r.
+- assert (Hloop : del_loop len a 0 len = (a, 0)).
+  { destruct len; cbn [del_loop]; [reflexivity|]. rewrite Hd, Hdt. reflexivity. }
+  rewrite Hloop, Hfull. now rewrite andb_false_r.
+- assert (Hloop : match_loop len query quals (get_allele v i) (qs + matched a + inserted a) a (qs - qp) len = (a, qs - qp)).
+  { destruct len; cbn [match_loop]; [reflexivity|]. rewrite Hma, Hmt. reflexivity. }
+  rewrite Hloop, Hfull. now rewrite andb_false_r.
+- assert (Hloop : match_loop len query quals (get_allele v i) (qs + matched a + inserted a) a (qs - qp) len = (a, qs - qp)).
+  { destruct len; cbn [match_loop]; [reflexivity|]. rewrite Hma, Hmt. reflexivity. }
+  rewrite Hloop, Hfull. now rewrite andb_false_r.
+Qed.
+
+Lemma query_shows k : k < n -> base_at query (length q1 + k) = base_at (valt v) k.
+Proof.
+intros Hk. unfold base_at. rewrite Hquery. rewrite app_nth2 by lia.
+replace (length q1 + k - length q1) with k by lia. rewrite app_nth1 by (fold n; lia). reflexivity.
+Qed.
+
+Lemma ins_loop_run : forall d a k c len, alt_ok k a -> k + d <= n -> c + d = len ->
+  exists a', ins_loop d query (valt v) (length q1) a c len = (a', len) /\ alt_ok (k + d) a'.
+Proof.
+induction d as [|d IH]; intros a k c len Ha Hk Hc.
+- exists a. cbn [ins_loop]. rewrite Nat.add_0_r in *. subst c. now split.
+- destruct Ha as (Hpr & Hl & Hma & Hmt & Hi & Hit & Hd & Hdt).
+  cbn [ins_loop]. rewrite Hi, Hit, Hma.
+  assert (E1 : (k <? n) = true) by (apply Nat.ltb_lt; lia).
+  assert (E2 : (c <? len) = true) by (apply Nat.ltb_lt; lia).
+  rewrite E1, E2. cbn [andb Nat.add]. rewrite Nat.add_0_r. rewrite (query_shows k) by lia. rewrite Z.eqb_refl.
+  match goal with |- context [ins_loop d query (valt v) (length q1) ?a2 (S c) len] =>
+    destruct (IH a2 (S k) (S c) len) as (a' & Hr & Hok); [|lia|lia|] end.
+  + unfold alt_ok. cbn [progress alen matched match_target inserted insert_target deleted delete_target].
+    split; [rewrite Hpr; lia|]. repeat split; try assumption; try reflexivity; lia.
+  + exists a'. split; [exact Hr|]. replace (k + S d) with (S k + d) by lia. exact Hok.
+Qed.
+
+Lemma alt_ins_step k len a : alt_ok k a -> k + len <= n ->
+  alt_ok (k + len) (ins_allele query v (length q1) len 1 a).
+Proof.
+intros Ha Hk. unfold ins_allele.
+assert (Hnn : Z.ltb (progress a) 0 = false) by (destruct Ha as (Hpr & _); rewrite Hpr; apply Z.ltb_ge; lia).
+rewrite Hnn. cbn [get_allele].
+destruct (ins_loop_run len a k 0 len Ha Hk eq_refl) as (a' & Hr & Hok). rewrite Hr.
+rewrite Nat.ltb_irrefl. cbn [andb]. exact Hok.
+Qed.
+
+
+(* --- the invariant of a queued tracker of variant j after U unit operations *)
+Definition entry_ok (U : nat) (e : vprog) : Prop :=
+  vid e = j -> K < U /\ qstart e = length q1 /\
+               exists a1, alleles e = [z0; a1] /\ alt_ok (Nat.min n (U - K)) a1.
+
+Lemma expand_snoc_length pre op len : length (expand (pre ++ [(op, len)])) = length (expand pre) + len.
+Proof.
+rewrite expand_app, app_length. f_equal. unfold expand. cbn [flat_map fst snd]. now rewrite app_nil_r, repeat_length.
+Qed.
+
+Lemma handle_qstart op qp len e : qstart (handle op query quals nv qp len e) = qstart e.
+Proof. unfold handle. destruct (nth_error nv (vid e)); reflexivity. Qed.
+
+Lemma verdict_ins U e y : entry_ok U e -> verdict e = Some y -> fst (fst y) = j -> snd (fst y) = 1.
+Proof.
+intros He Hy Hj. unfold verdict in Hy.
+destruct (existsb is_pending (alleles e)) eqn:Epend; [discriminate|].
+destruct (best_resolved 0 (alleles e) None) as [[i a]|] eqn:Eb; [|discriminate].
+injection Hy as <-. cbn [fst snd] in *.
+destruct (He Hj) as (_ & _ & a1 & Hal & Hok). rewrite Hal in Epend, Eb.
+destruct Hok as (Hpr & Hl & _).
+cbn [existsb] in Epend. apply orb_false_elim in Epend as [_ Epend]. apply orb_false_elim in Epend as [Epend _].
+unfold is_pending in Epend. rewrite Hpr, Hl in Epend.
+assert (Hk : Nat.min n (U - K) = n).
+{ destruct (Z.leb 0 (Z.of_nat (Nat.min n (U - K)))) eqn:E0; [|apply Z.leb_gt in E0; lia].
+  cbn [andb] in Epend. apply Z.ltb_ge in Epend. lia. }
+cbn [best_resolved] in Eb.
+assert (Hr0 : is_resolved z0 = true) by reflexivity.
+assert (Hr1 : is_resolved a1 = true) by (unfold is_resolved; rewrite Hpr, Hl, Hk; apply Z.eqb_refl).
+rewrite Hr0, Hr1 in Eb.
+assert (Hlt : (alen z0 <? alen a1) = true) by (rewrite Hl; apply Nat.ltb_lt; cbn; lia).
+rewrite Hlt in Eb. now injection Eb as <- _.
+Qed.
+
+(* an operation that does not touch the queue *)
+Lemma move_entry pre op len rest e : whole = pre ++ (op, len) :: rest -> moves op ->
+  entry_ok (length (expand pre)) e -> entry_ok (length (expand pre) + len) e.
+Proof.
+intros Hw Hm He Hv. destruct (He Hv) as (HK & Hqs & a1 & Hal & Hok).
+assert (Hdone : K + n <= length (expand pre)).
+{ destruct (Nat.le_gt_cases (K + n) (length (expand pre))) as [H|H]; [exact H|exfalso].
+  assert (op = OpI) by (eapply op_in_run; eauto; lia). subst op. destruct Hm as [H0|[H0|[H0|H0]]]; discriminate. }
+split; [lia|]. split; [exact Hqs|]. exists a1. split; [exact Hal|].
+replace (Nat.min n (length (expand pre) + len - K)) with (Nat.min n (length (expand pre) - K)) by lia. exact Hok.
+Qed.
+
+(* a handled entry that was queued earlier *)
+Lemma handle_entry pre op len rest e : whole = pre ++ (op, len) :: rest -> queues op ->
+  entry_ok (length (expand pre)) e ->
+  entry_ok (length (expand pre) + len) (handle op query quals nv (query_units (expand pre)) len e).
+Proof.
+intros Hw Hop He Hv. rewrite handle_vid in Hv. destruct (He Hv) as (HK & Hqs & a1 & Hal & Hok).
+split; [lia|]. rewrite handle_qstart. split; [exact Hqs|].
+rewrite (handle_alleles query quals nv j v Hnth op _ len e z0 a1 Hv Hal).
+destruct (Nat.le_gt_cases (K + n) (length (expand pre))) as [Hdone|Hrun].
+- (* the insertion is complete: nothing changes *)
+  assert (Hk : Nat.min n (length (expand pre) - K) = n) by lia. rewrite Hk in Hok.
+  exists a1. split.
+  + destruct Hop as [->|[->|Hm]]; [| |destruct op; try discriminate];
+      rewrite z0_step, (alt_done_step _ _ _ _ _ _ Hok); reflexivity.
+  + replace (Nat.min n (length (expand pre) + len - K)) with n by lia. exact Hok.
+- (* inside the run of insertion operations *)
+  assert (op = OpI) by (eapply op_in_run; eauto; lia). subst op.
+  pose proof (ins_op_within_run pre len rest Hw Hrun) as Hend.
+  assert (Hk : Nat.min n (length (expand pre) - K) = length (expand pre) - K) by lia. rewrite Hk in Hok.
+  exists (ins_allele query v (length q1) len 1 a1). split.
+  + rewrite z0_step. cbn [step_allele]. rewrite Hqs. reflexivity.
+  + replace (Nat.min n (length (expand pre) + len - K)) with (length (expand pre) - K + len) by lia.
+    apply alt_ins_step; [exact Hok|lia].
+Qed.
+
+
+Lemma vvar_j e : vid e = j -> vvar nv e = v.
+Proof. intros H. unfold vvar. rewrite H. now apply nth_error_nth. Qed.
+
+(* the only operation that can queue the tracker of variant j is the insertion operation starting at unit K *)
+Lemma queued_only_at_K pre op len rest : whole = pre ++ (op, len) :: rest -> queues op ->
+  length (expand pre) <= K ->
+  start + ref_units (expand pre) <= vpos v ->
+  vpos v < start + ref_units (expand pre) + match op with OpI => 1 | _ => len end ->
+  op = OpI /\ length (expand pre) = K.
+Proof.
+intros Hw Hop HU Hlo Hhi. pose proof (positive_in whole pre op len rest Hpos Hw) as Hlen.
+destruct Hop as [->|Hop].
+- split; [reflexivity|]. destruct (Nat.eq_dec (length (expand pre)) K) as [E|E]; [exact E|exfalso].
+  pose proof (ru_before_K pre OpI len rest Hw ltac:(lia)). lia.
+- exfalso.
+  assert (Hru : ref_unit op = 1) by (destruct Hop as [->|Hm]; [reflexivity|now apply is_match_ref_unit]).
+  assert (Hhi' : vpos v < start + ref_units (expand pre) + len) by (destruct Hop as [->|Hm]; [exact Hhi|destruct op; try discriminate; exact Hhi]).
+  assert (HK : K < length (expand pre) + len).
+  { destruct (Nat.le_gt_cases (length (expand pre) + len) K) as [H|H]; [exfalso|exact H].
+    destruct (prefix_of_PM pre op len rest len Hw (Nat.le_refl _) H) as [l Hl].
+    assert (ref_units PM = ref_units (expand pre) + len + ref_units l).
+    { rewrite Hl, !ref_units_app, ref_units_repeat, Hru. lia. }
+    lia. }
+  destruct (op_over_K pre op len rest Hw HU HK) as [-> _]. discriminate.
+Qed.
+
+Lemma new_entry pre len rest e : whole = pre ++ (OpI, len) :: rest -> length (expand pre) = K ->
+  built nv e -> vid e = j ->
+  entry_ok (length (expand pre) + len)
+    (handle OpI query quals nv (query_units (expand pre)) len
+       (reset e (query_units (expand pre) + vpos v - (start + ref_units (expand pre))))).
+Proof.
+intros Hw HU [Hvalid Hb] Hv _.
+pose proof (positive_in whole pre OpI len rest Hpos Hw) as Hlen.
+assert (HE : expand pre = PM) by (apply ru_at_K; [exact HU|eauto]).
+pose proof (ins_op_within_run pre len rest Hw ltac:(lia)) as Hend.
+assert (Hqs : query_units (expand pre) + vpos v - (start + ref_units (expand pre)) = length q1).
+{ rewrite HE, Hp, Hq1. lia. }
+rewrite Hqs. split; [lia|]. rewrite handle_qstart. split; [reflexivity|].
+assert (Hal : alleles (reset e (length q1)) = [z0; new_allele 0 n 0]).
+{ rewrite Hb. cbn [reset alleles build_var_progress map vid]. rewrite Hv.
+  rewrite (nth_error_nth nv j dummy Hnth). rewrite Hvref. cbn [length Nat.min Nat.sub]. fold n.
+  rewrite Nat.sub_0_r. reflexivity. }
+rewrite (handle_alleles query quals nv j v Hnth OpI _ len (reset e (length q1)) z0 (new_allele 0 n 0) Hv Hal).
+exists (ins_allele query v (length q1) len 1 (new_allele 0 n 0)). split.
+- rewrite z0_step. reflexivity.
+- replace (Nat.min n (length (expand pre) + len - K)) with (0 + len) by lia.
+  apply alt_ins_step; [|lia]. unfold alt_ok, new_allele. cbn. repeat split; lia.
+Qed.
+
+(* once the insertion operation at unit K has been processed, the tracker of j has left the progress list *)
+Lemma taken_at_K sk pre op len rest vp1 newq vp' :
+  whole = pre ++ (op, len) :: rest -> queues op ->
+  Forall (built nv) vp1 -> strict_vp nv vp1 ->
+  Forall (fun e => start + ref_units (expand pre) <= vpos (vvar nv e)) vp1 ->
+  ((exists e, In e vp1 /\ vid e = j) -> length (expand pre) <= K) ->
+  enqueue sk op nv vp1 (start + ref_units (expand pre)) (query_units (expand pre))
+          (start + ref_units (expand pre) + match op with OpI => if r_ins_span R then 1 else len | _ => len end)
+    = (newq, vp') ->
+  (exists e, In e vp' /\ vid e = j) -> length (expand pre) + len <= K.
+Proof.
+intros Hw Hop Hb Hs Hlow HV3 Hen (e & He & Hv). rewrite Hspan in Hen.
+assert (Hff : Forall (fresh_entry nv) vp1) by (eapply Forall_impl; [|exact Hb]; apply built_fresh).
+destruct (enqueue_spec nv _ _ _ _ _ _ _ _ Hff Hen) as [[taken Ht] _].
+assert (He1 : In e vp1) by (rewrite Ht; apply in_or_app; now right).
+specialize (HV3 (ex_intro _ e (conj He1 Hv))).
+destruct (Nat.le_gt_cases (length (expand pre) + len) K) as [H|H]; [exact H|exfalso].
+destruct (op_over_K pre op len rest Hw HV3 H) as [-> HU].
+assert (HE : expand pre = PM) by (apply ru_at_K; [exact HU|eauto]).
+destruct vp1 as [|h t]; [contradiction|].
+cbn [enqueue] in Hen.
+pose proof (Forall_inv Hb) as [Hhv _]. pose proof (Forall_inv_tail Hb) as Hbt.
+rewrite (nth_error_vvar nv h Hhv) in Hen.
+pose proof (Forall_inv Hlow) as Hlh. cbn beta in Hlh. destruct Hs as [Hsh Hst].
+assert (Hpe : vpos (vvar nv e) = vpos v) by (now rewrite (vvar_j e Hv)).
+assert (Hhe : vpos (vvar nv h) = vpos v).
+{ destruct He1 as [->|Het]; [exact Hpe|]. rewrite Forall_forall in Hsh. specialize (Hsh e Het).
+  rewrite HE, <- Hp in Hlh. lia. }
+assert (E1 : (start + ref_units (expand pre) + 1 <=? vpos (vvar nv h)) = false).
+{ apply Nat.leb_gt. rewrite Hhe, HE, Hp. lia. }
+rewrite E1 in Hen.
+assert (Hrl : length (vref (vvar nv h)) = 0).
+{ destruct He1 as [->|Het]; [rewrite (vvar_j e Hv), Hvref; reflexivity|].
+  rewrite Forall_forall in Hsh. specialize (Hsh e Het). lia. }
+rewrite Hrl in Hen. cbn [Nat.ltb Nat.leb] in Hen.
+destruct (enqueue sk OpI nv t _ _ _) as [a b] eqn:Eab. injection Hen as _ <-.
+assert (Hfft : Forall (fresh_entry nv) t) by (eapply Forall_impl; [|exact Hbt]; apply built_fresh).
+destruct (enqueue_spec nv _ _ _ _ _ _ _ _ Hfft Eab) as [[taken' Ht'] _].
+assert (Het : In e t) by (rewrite Ht'; apply in_or_app; now right).
+rewrite Forall_forall in Hsh. specialize (Hsh e Het). lia.
+Qed.
+
+
+(* --- the loop *)
+Lemma ins_loop_inv : forall cig pre vp queue flank,
+  whole = pre ++ cig -> Forall (built nv) vp -> strict_vp nv vp ->
+  ((exists e, In e vp /\ vid e = j) -> length (expand pre) <= K) ->
+  Forall (entry_ok (length (expand pre))) queue ->
+  forall y, In y (detect_loop R cig query quals nv vp queue flank
+                              (start + ref_units (expand pre)) (query_units (expand pre))) ->
+  fst (fst y) = j -> snd (fst y) = 1.
+Proof.
+induction cig as [|[op len] cig IH]; intros pre vp queue flank Hw Hb Hs HV3 Hq y Hy Hj.
+- cbn [detect_loop] in Hy. destruct (final_yield_spec _ _ Hy) as (e & He & Hv).
+  rewrite Forall_forall in Hq. eapply verdict_ins; eauto.
+- assert (Hw' : whole = (pre ++ [(op, len)]) ++ cig) by (rewrite <- app_assoc; exact Hw).
+  pose proof (ref_units_expand_snoc pre op len) as Hru.
+  pose proof (query_units_expand_snoc pre op len) as Hqu.
+  pose proof (expand_snoc_length pre op len) as HU'.
+  cbn [detect_loop] in Hy.
+  assert (Hff : Forall (fresh_entry nv) vp) by (eapply Forall_impl; [|exact Hb]; apply built_fresh).
+  destruct (skip_progress_spec nv vp (start + ref_units (expand pre)) Hff (strict_vp_weak nv vp Hs)) as (dropped & Hd & Hlow).
+  remember (skip_progress nv vp (start + ref_units (expand pre))) as vp1 eqn:Evp1. clear Evp1.
+  assert (Hb1 : Forall (built nv) vp1) by (rewrite Hd in Hb; apply Forall_app in Hb; apply Hb).
+  assert (Hs1 : strict_vp nv vp1) by (rewrite Hd in Hs; eapply strict_vp_app; eauto).
+  assert (HV31 : (exists e, In e vp1 /\ vid e = j) -> length (expand pre) <= K).
+  { intros (e & He & Hv). apply HV3. exists e. split; [rewrite Hd; apply in_or_app; now right|exact Hv]. }
+  assert (Hmove : moves op -> forall fl,
+     In y (detect_loop R cig query quals nv vp1 queue fl
+             (start + ref_units (expand (pre ++ [(op, len)]))) (query_units (expand (pre ++ [(op, len)])))) ->
+     snd (fst y) = 1).
+  { intros Hm fl Hy'. apply (IH (pre ++ [(op, len)]) vp1 queue fl Hw' Hb1 Hs1); [| |exact Hy'|exact Hj].
+    - intros Hex. rewrite HU'. specialize (HV31 Hex).
+      destruct (Nat.le_gt_cases (length (expand pre) + len) K) as [H|H]; [exact H|exfalso].
+      destruct (op_over_K pre op len cig Hw HV31 H) as [-> _]. destruct Hm as [H0|[H0|[H0|H0]]]; discriminate.
+    - rewrite HU'. rewrite Forall_forall in *. intros e He. eapply move_entry; eauto. }
+  assert (Hwork : queues op ->
+     In y (let (newq, vp') := enqueue (r_ins_left_flank R && negb flank) op nv vp1 (start + ref_units (expand pre))
+                                (query_units (expand pre))
+                                (start + ref_units (expand pre) + match op with OpI => if r_ins_span R then 1 else len | _ => len end) in
+           let queue1 := map (handle op query quals nv (query_units (expand pre)) len) (queue ++ newq) in
+           let (ys, queue2) := drain queue1 in
+           ys ++ detect_loop R cig query quals nv vp' queue2 true
+                   (start + ref_units (expand (pre ++ [(op, len)]))) (query_units (expand (pre ++ [(op, len)])))) ->
+     snd (fst y) = 1).
+  { intros Hop Hy'.
+    destruct (enqueue _ op nv vp1 _ _ _) as [newq vp'] eqn:Een.
+    assert (Hff1 : Forall (fresh_entry nv) vp1) by (eapply Forall_impl; [|exact Hb1]; apply built_fresh).
+    destruct (enqueue_spec nv _ op _ _ _ vp1 newq vp' Hff1 Een) as [[taken Ht] Hnew].
+    pose proof (taken_at_K _ pre op len cig vp1 newq vp' Hw Hop Hb1 Hs1 Hlow HV31 Een) as HV3'.
+    cbv zeta in Hy'.
+    set (queue1 := map (handle op query quals nv (query_units (expand pre)) len) (queue ++ newq)) in *.
+    assert (Hqq1 : Forall (entry_ok (length (expand pre) + len)) queue1).
+    { unfold queue1. rewrite Forall_forall. intros e1 He1. apply in_map_iff in He1 as (e0 & <- & He0).
+      apply in_app_or in He0 as [He0|He0].
+      - rewrite Forall_forall in Hq. eapply handle_entry; eauto.
+      - destruct (Hnew e0 He0) as (e & He & -> & Hlt & HI).
+        intros Hv. rewrite handle_vid in Hv. cbn [reset vid] in Hv.
+        rewrite Forall_forall in Hb1, Hlow. specialize (Hb1 e He). specialize (Hlow e He).
+        rewrite (vvar_j e Hv) in *. rewrite Hspan in Hlt.
+        destruct (queued_only_at_K pre op len cig Hw Hop (HV31 (ex_intro _ e (conj He Hv))) Hlow Hlt) as [-> HU].
+        apply (new_entry pre len cig e Hw HU Hb1 Hv). rewrite handle_vid. exact Hv. }
+    destruct (drain queue1) as [ys queue2] eqn:Edr. destruct (drain_spec _ _ _ Edr) as [Hys Hq2].
+    apply in_app_or in Hy' as [Hy'|Hy'].
+    - destruct (Hys y Hy') as (e & He & Hv). rewrite Forall_forall in Hqq1. eapply verdict_ins; eauto.
+    - apply (IH (pre ++ [(op, len)]) vp' queue2 true Hw'); [| | | |exact Hy'|exact Hj].
+      + rewrite Ht in Hb1. apply Forall_app in Hb1. apply Hb1.
+      + rewrite Ht in Hs1. eapply strict_vp_app; eauto.
+      + rewrite HU'. exact HV3'.
+      + rewrite HU'. rewrite Forall_forall in *. auto. }
+  destruct op.
+  + apply Hwork; [right; right; reflexivity|].
+    rewrite Hru, Hqu. cbn [ref_unit query_unit]. rewrite !Nat.mul_1_l, !Nat.add_assoc. exact Hy.
+  + apply Hwork; [left; reflexivity|].
+    rewrite Hru, Hqu. cbn [ref_unit query_unit]. rewrite Nat.mul_0_l, Nat.mul_1_l, Nat.add_0_r. exact Hy.
+  + apply Hwork; [right; left; reflexivity|].
+    rewrite Hru, Hqu. cbn [ref_unit query_unit]. rewrite Nat.mul_1_l, Nat.mul_0_l, Nat.add_0_r, !Nat.add_assoc. exact Hy.
+  + apply (Hmove (or_introl eq_refl) false).
+    rewrite Hru, Hqu. cbn [ref_unit query_unit]. rewrite Nat.mul_1_l, Nat.mul_0_l, Nat.add_0_r, !Nat.add_assoc. exact Hy.
+  + apply (Hmove (or_intror (or_introl eq_refl)) flank).
+    rewrite Hru, Hqu. cbn [ref_unit query_unit]. rewrite Nat.mul_1_l, Nat.mul_0_l, Nat.add_0_r. exact Hy.
+  + apply (Hmove (or_intror (or_intror (or_introl eq_refl))) flank).
+    rewrite Hru, Hqu. cbn [ref_unit query_unit]. rewrite !Nat.mul_0_l, !Nat.add_0_r. exact Hy.
+  + apply (Hmove (or_intror (or_intror (or_intror eq_refl))) flank).
+    rewrite Hru, Hqu. cbn [ref_unit query_unit]. rewrite !Nat.mul_0_l, !Nat.add_0_r. exact Hy.
+  + apply Hwork; [right; right; reflexivity|].
+    rewrite Hru, Hqu. cbn [ref_unit query_unit]. rewrite !Nat.mul_1_l, !Nat.add_assoc. exact Hy.
+  + apply Hwork; [right; right; reflexivity|].
+    rewrite Hru, Hqu. cbn [ref_unit query_unit]. rewrite !Nat.mul_1_l, !Nat.add_assoc. exact Hy.
+Qed.
+
+End InsertionShown.
+
+(* the read shows the insertion => REF is not reported *)
+Theorem detect_noref_never_wrong_ins_shown :
+  forall (R : rules), r_ins_span R = true ->
+  forall (variants : list variant) (start : nat) (cig : cigar) (query quals : list Z) (j a q : nat)
+         (v : variant) (pre V post : list cop) (q1 q2 : list Z),
+  sorted_pos (index_from 0 (map normalized variants)) -> positive_lengths cig ->
+  In (j, a, q) (detect_noref R variants start cig query quals) ->
+  nth_error (map normalized variants) j = Some v ->
+  vref v = [] -> valt v <> [] ->
+  expand cig = pre ++ V ++ post -> vpos v = start + ref_units pre -> allele_units v 1 V ->
+  query = q1 ++ valt v ++ q2 -> length q1 = query_units pre ->
+  flanked pre post ->
+  a = 1.
+Proof.
+intros R Hspan variants start cig query quals j a q v pre V post q1 q2 Hs Hpos Hin Hn Hr Ha He Hp HV Hq Hq1 Hfl.
+set (nv := map normalized variants) in *.
+assert (Hlen : 0 < length (valt v)) by (destruct (valt v); [contradiction|cbn; lia]).
+cbn [allele_units] in HV. destruct HV as (M & _ & HMl & HVe). rewrite Hr in HMl, HVe. cbn [length Nat.min Nat.sub] in HMl, HVe.
+destruct M; [|discriminate]. rewrite Nat.sub_0_r in HVe. cbn [repeat app] in HVe. rewrite app_nil_r in HVe. subst V.
+destruct Hfl as [(P & m1 & -> & Hm1) (m2 & Q & -> & Hm2)].
+unfold detect_noref in Hin. fold nv in Hin.
+destruct (initial_vp nv Hs) as [Hb Hsv]. cbv zeta in Hb, Hsv.
+pose proof (initial_vp_strict nv Hs) as Hst.
+set (vp := map (fun j => build_var_progress (nth j nv (mkVar 0 [] [])) j) (non_overlapping (index_from 0 nv) [] None)) in *.
+assert (Hff : Forall (fresh_entry nv) vp) by (eapply Forall_impl; [|exact Hb]; apply built_fresh).
+destruct (skip_progress_spec nv vp start Hff Hsv) as (dropped & Hd & _).
+assert (Hb1 : Forall (built nv) (skip_progress nv vp start)) by (rewrite Hd in Hb; apply Forall_app in Hb; apply Hb).
+assert (Hs1 : strict_vp nv (skip_progress nv vp start)) by (rewrite Hd in Hst; eapply strict_vp_app; eauto).
+pose proof (ins_loop_inv R Hspan query quals nv start cig j v Hn Hr P Q m1 m2 q1 q2 Hlen Hpos He Hm1 Hm2 Hp Hq Hq1
+              cig [] (skip_progress nv vp start) [] false eq_refl Hb1 Hs1) as Hg.
+cbn [expand flat_map ref_units query_units fold_right length] in Hg. rewrite Nat.add_0_r in Hg.
+apply (Hg ltac:(intros; lia) (Forall_nil _) (j, a, q) Hin eq_refl).
+Qed.
+
+(* --- the complete reference-free statement for the code as it is now *)
+Theorem detect_noref_never_wrong_current : detect_noref_never_wrong_statement current_rules.
+Proof.
+intros variants start cig query quals j a q v carried pre V post q1 q2 Hs Hpos Hin Hn Hkind Hd Hc He Hp HV Hq Hq1 Hfl.
+destruct Hkind as [Hsnv|Hind].
+- eapply detect_noref_never_wrong_snv; eauto.
+- specialize (Hfl Hind).
+  destruct (list_eq_dec Z.eq_dec (vref v) []) as [Hr|Hr].
+  + destruct carried as [|[|c]]; [| |lia].
+    * eapply (detect_noref_never_wrong_indel_kill current_rules eq_refl); eauto.
+    * cbn [get_allele] in Hq.
+      eapply (detect_noref_never_wrong_ins_shown current_rules eq_refl); eauto.
+      intros Ha. apply Hd. now rewrite Hr, Ha.
+  + eapply (detect_noref_never_wrong_indel_kill current_rules eq_refl); eauto. intros H. contradiction.
+Qed.
+
+(* --- without reference: only variants whose normalised position lies in the reference span are reported *)
+Section WithinSpan.
+Variable R : rules.
+Hypothesis Hspan : r_ins_span R = true.
+Variables (query quals : list Z) (nv : list variant) (start : nat) (whole : cigar).
+
+Definition in_span (e : vprog) : Prop :=
+  start <= vpos (vvar nv e) /\ vpos (vvar nv e) <= start + ref_units (expand whole).
+
+Lemma span_frame : forall cig pre vp queue flank,
+  whole = pre ++ cig -> Forall (built nv) vp -> sorted_vp nv vp -> Forall in_span queue ->
+  forall y, In y (detect_loop R cig query quals nv vp queue flank
+                              (start + ref_units (expand pre)) (query_units (expand pre))) ->
+  start <= vpos (nth (fst (fst y)) nv dummy) /\ vpos (nth (fst (fst y)) nv dummy) <= start + ref_units (expand whole).
+Proof.
+apply (frame R query quals nv start whole (fun _ => in_span) (built nv)
+             (fun y => start <= vpos (nth (fst (fst y)) nv dummy) /\
+                       vpos (nth (fst (fst y)) nv dummy) <= start + ref_units (expand whole))).
+- apply built_fresh.
+- auto.
+- intros pre op len rest e _ _ He. unfold in_span, vvar in *. now rewrite handle_vid.
+- intros pre op len rest e Hw Hop _ Hlo Hhi _. unfold in_span.
+  assert (Hvv : forall qs, vvar nv (handle op query quals nv (query_units (expand pre)) len (reset e qs)) = vvar nv e).
+  { intros qs. unfold vvar. rewrite handle_vid. reflexivity. }
+  rewrite !Hvv. split; [lia|]. rewrite Hspan in Hhi.
+  assert (Hle : ref_units (expand pre) + ref_unit op * len <= ref_units (expand whole)).
+  { rewrite Hw, expand_app, ref_units_app.
+    change (expand ((op, len) :: rest)) with (repeat op len ++ expand rest). rewrite ref_units_app, ref_units_repeat. lia. }
+  destruct Hop as [->|[->|Hm]].
+  + lia.
+  + cbn [ref_unit] in Hle. lia.
+  + rewrite (is_match_ref_unit _ Hm) in Hle. destruct op; try discriminate; lia.
+- intros _ e y He Hy. unfold verdict in Hy.
+  destruct (existsb is_pending (alleles e)); [discriminate|].
+  destruct (best_resolved 0 (alleles e) None) as [[i a]|]; [|discriminate]. injection Hy as <-. exact He.
+Qed.
+
+End WithinSpan.
+
+Theorem detect_noref_within_span :
+  forall (R : rules), r_ins_span R = true ->
+  forall (variants : list variant) (start : nat) (cig : cigar) (query quals : list Z) (j a q : nat) (v : variant),
+  sorted_pos (index_from 0 (map normalized variants)) ->
+  In (j, a, q) (detect_noref R variants start cig query quals) ->
+  nth_error (map normalized variants) j = Some v ->
+  start <= vpos v /\ vpos v <= start + ref_units (expand cig).
+Proof.
+intros R Hspan variants start cig query quals j a q v Hs Hin Hn.
+set (nv := map normalized variants) in *.
+unfold detect_noref in Hin. fold nv in Hin.
+destruct (initial_vp nv Hs) as [Hb Hsv]. cbv zeta in Hb, Hsv.
+set (vp := map (fun j => build_var_progress (nth j nv (mkVar 0 [] [])) j) (non_overlapping (index_from 0 nv) [] None)) in *.
+assert (Hff : Forall (fresh_entry nv) vp) by (eapply Forall_impl; [|exact Hb]; apply built_fresh).
+destruct (skip_progress_spec nv vp start Hff Hsv) as (dropped & Hd & _).
+assert (Hb1 : Forall (built nv) (skip_progress nv vp start)) by (rewrite Hd in Hb; apply Forall_app in Hb; apply Hb).
+assert (Hs1 : sorted_vp nv (skip_progress nv vp start)) by (rewrite Hd in Hsv; eapply sorted_vp_app; eauto).
+pose proof (span_frame R Hspan query quals nv start cig cig [] (skip_progress nv vp start) [] false eq_refl Hb1 Hs1
+              (Forall_nil _) (j, a, q)) as Hg.
+cbn [expand flat_map ref_units query_units fold_right fst] in Hg. rewrite Nat.add_0_r in Hg.
+specialize (Hg Hin). rewrite (nth_error_nth nv j dummy Hn) in Hg. exact Hg.
+Qed.
